@@ -2,6 +2,7 @@ package sx
 
 import (
 	"fmt"
+	"os"
 	"go/token"
 	"go/types"
 	"sort"
@@ -120,6 +121,9 @@ type Machine struct {
 	nameSeq      int
 	lastPos      token.Pos
 	canonCache   map[int]*smt.Term
+	auxVars      []*smt.Term
+	floorCache   map[string]*smt.Term
+	multiples    []multipleOf
 }
 
 func (m *Machine) abort(kind, msg string) {
@@ -349,6 +353,7 @@ func (m *Machine) modelVars() []*smt.Term {
 			vs = append(vs, n.T)
 		}
 	}
+	vs = append(vs, m.auxVars...)
 	return vs
 }
 
@@ -649,6 +654,9 @@ func (m *Machine) ensureInit(p *ssa.Package) {
 			m.inInit--
 			m.stack = savedStack
 			if r := recover(); r != nil {
+				if debugInit {
+					fmt.Fprintf(os.Stderr, "init-abort: %s: %v\n", p.Pkg.Path(), r)
+				}
 				switch x := r.(type) {
 				case pathAbort:
 					if x.Kind == "unsupported" || x.Kind == "bound" {
